@@ -24,7 +24,7 @@ def main():
     ap.add_argument("dir"); ap.add_argument("--checks", default=None); ap.add_argument("--tier", default="quick")
     ap.add_argument("--keep", action="store_true"); ap.add_argument("--name", default=None); ap.add_argument("--skip-tests", action="store_true")
     a = ap.parse_args()
-    src = a.dir.rstrip("/")
+    src = os.path.abspath(a.dir.rstrip("/"))
     meta = json.load(open(os.path.join(src, "meta.json")))
     prop = meta["property"]
     name = a.name or "%s-%s" % (prop, os.path.basename(src).replace("change", ""))
@@ -62,7 +62,8 @@ def main():
         if a.keep and ok:
             dst = os.path.join("/verif/seeded", name)
             os.makedirs(dst, exist_ok=True)
-            shutil.copy(patch, os.path.join(dst, "patch.diff")); shutil.copy(demo, os.path.join(dst, "demo.py"))
+            if os.path.abspath(dst) != os.path.abspath(src):
+                shutil.copy(patch, os.path.join(dst, "patch.diff")); shutil.copy(demo, os.path.join(dst, "demo.py"))
             meta.update({"id": name, "what_i_ran": "git apply on an export of /repo HEAD; baseline suite: %s; demo.py with change: exit %d, without: exit %d" % (out.get("tests"), out["demo_with_change"], out["demo_clean"]),
                          "checks_%s" % a.tier: {c: ("VIOLATION" if v["rc"] == 1 else "silent" if v["rc"] == 0 else "harness-error") for c, v in results.items()},
                          "first_report": {c: v["what"] for c, v in results.items() if v["rc"] == 1}})
